@@ -81,8 +81,15 @@ func FormatInt(i int) string {
 // or in another process, therefore gives the same text.
 func stableString(v interface{}) string {
 	var sb strings.Builder
-	writeStable(&sb, reflect.ValueOf(v), 0)
+	writeStable(&sb, reflect.ValueOf(v), 0, nil)
 	return sb.String()
+}
+
+// stableVisit identifies a pointer, map or slice that is being printed, so that
+// a value that contains itself is cut off instead of being followed forever
+type stableVisit struct {
+	ptr uintptr
+	typ reflect.Type
 }
 
 // isNilPointer reports whether v holds a nil pointer (of any pointer type)
@@ -91,7 +98,7 @@ func isNilPointer(v interface{}) bool {
 	return rv.Kind() == reflect.Ptr && rv.IsNil()
 }
 
-func writeStable(sb *strings.Builder, v reflect.Value, depth int) {
+func writeStable(sb *strings.Builder, v reflect.Value, depth int, seen map[stableVisit]bool) {
 	if !v.IsValid() {
 		sb.WriteString("<nil>")
 		return
@@ -120,15 +127,30 @@ func writeStable(sb *strings.Builder, v reflect.Value, depth int) {
 		}
 	}
 	switch v.Kind() {
+	case reflect.Ptr, reflect.Map, reflect.Slice:
+		if v.Kind() != reflect.Slice || v.Len() > 0 {
+			visit := stableVisit{v.Pointer(), v.Type()}
+			if seen[visit] {
+				sb.WriteString("...")
+				return
+			}
+			if seen == nil {
+				seen = map[stableVisit]bool{}
+			}
+			seen[visit] = true
+			defer delete(seen, visit)
+		}
+	}
+	switch v.Kind() {
 	case reflect.Ptr, reflect.Interface:
-		writeStable(sb, v.Elem(), depth+1)
+		writeStable(sb, v.Elem(), depth+1, seen)
 	case reflect.Struct:
 		sb.WriteByte('{')
 		for i := 0; i < v.NumField(); i++ {
 			if i > 0 {
 				sb.WriteByte(' ')
 			}
-			writeStable(sb, v.Field(i), depth+1)
+			writeStable(sb, v.Field(i), depth+1, seen)
 		}
 		sb.WriteByte('}')
 	case reflect.Slice, reflect.Array:
@@ -137,7 +159,7 @@ func writeStable(sb *strings.Builder, v reflect.Value, depth int) {
 			if i > 0 {
 				sb.WriteByte(' ')
 			}
-			writeStable(sb, v.Index(i), depth+1)
+			writeStable(sb, v.Index(i), depth+1, seen)
 		}
 		sb.WriteByte(']')
 	case reflect.Map:
@@ -146,9 +168,9 @@ func writeStable(sb *strings.Builder, v reflect.Value, depth int) {
 			if i > 0 {
 				sb.WriteByte(' ')
 			}
-			writeStable(sb, key, depth+1)
+			writeStable(sb, key, depth+1, seen)
 			sb.WriteByte(':')
-			writeStable(sb, v.MapIndex(key), depth+1)
+			writeStable(sb, v.MapIndex(key), depth+1, seen)
 		}
 		sb.WriteByte(']')
 	case reflect.Func, reflect.Chan, reflect.UnsafePointer:
